@@ -344,7 +344,11 @@ func runAt(t *testing.T, c WCase, point int) (f facts, labels []string, harnessE
 			lab["successor"] = true
 		}
 	})
-	if res.Panic != nil {
+	if res.Deadlock {
+		// the usual reason: the system could not be stopped at the end of the case (an actor never terminated), the
+		// goroutine of the timed-out Stop is what remains
+		harnessErr = fmt.Sprintf("DEADLOCK %v", res.Panic)
+	} else if res.Panic != nil {
 		harnessErr = fmt.Sprintf("%v\n%s", res.Panic, res.Stack)
 	}
 	for l := range lab {
@@ -554,6 +558,8 @@ func check(t *testing.T, fatalf func(string, ...any), c WCase, prop string) {
 	vstat.Case(vstat.Hash(prop, c.JSON()), f.parked, labels, func() any { return c.Describe() })
 	var v *verdict
 	switch {
+	case strings.HasPrefix(herr, "DEADLOCK "):
+		v = &verdict{prop + "/window|bubble-deadlock", "the bubble could not be left - the system did not stop at the end of the case or a goroutine stayed blocked for ever: " + strings.TrimPrefix(herr, "DEADLOCK ") + "; case: " + c.Describe()}
 	case herr != "":
 		v = &verdict{prop + "/window|harness-panic", herr}
 	case f.overwork:
